@@ -78,6 +78,17 @@ theorem crash_point_resolvable (c : Cache) (d : Disk) (f : Nat) (root : Hash) (w
     succeed or are refused at **any** physical write, and process deaths. -/
 theorem reachable_invariant (eD eC : Hash) (s : St) (h : Reach eD eC s) : Inv s := reach_inv h
 
+/-- The same with the assumption `StoreOk` replaced by what the driver verifies on
+    every run: a run in which every `ins`/`insl` was answered `ok` (the model's
+    `storeCheck` passed; `ok!pre` would be a diff against the implementation) or
+    `dup` passes only through states satisfying the invariant.  What the callers of
+    `hasher.store` guarantee is thus observed on each execution, not assumed. -/
+theorem checked_run_invariant (eD eC : Hash) (s : St) (h : ReachChecked eD eC s) : Inv s := reachChecked_inv h
+
+/-- … hence in such a run every hash present on disk resolves, at every point -/
+theorem checked_run_top_present_resolvable (eD eC : Hash) (s : St) (hr : ReachChecked eD eC s) (h : Hash)
+    (hh : Has s.disk h) : Resolvable s.disk h := (reachChecked_inv hr).allRes h hh
+
 /-- DESIGN `top_present_resolvable`, for every history and crash point: a hash
     whose top node is on disk is fully resolvable from the disk alone. -/
 theorem top_present_resolvable (eD eC : Hash) (s : St) (hr : Reach eD eC s) (h : Hash)
@@ -274,6 +285,12 @@ example : Resolvable (applyWrites exS5.cache exS5.disk [1, 2, 3]) 3 ∧ ¬ Has (
 example : ∃ out, commit exS5 5 none 6 = some out ∧ (liveLookup exS5 5).isSome = true ∧ out.st.cache = [] ∧
     view (diskGet out.st.disk) 6 5 = some (5, 65) := by
   refine ⟨_, rfl, by decide, by decide, by decide⟩
+
+/-- the driver's check passes on the example store of the account-leaf node `5`
+    (and fails without the leaf callback: `3`,`4` are then no children of `5`) -/
+example : storeCheck exS4.disk exS5.cache 5 ⟨40, 15, [], [], [3, 4]⟩ = true ∧
+    storeCheck exS4.disk ((5, ⟨40, 15, [], [], [3, 4]⟩) :: exS4.cache) 5 ⟨40, 15, [], [], [3, 4]⟩ = false := by
+  decide
 
 /-- hypotheses of `crash_during_commit`: the first write of the commit of `5` is refused, then the process dies -/
 example : ∃ s1 s2, step 0 0 exS5 (.commit 5 (some 0)) = some s1 ∧ step 0 0 s1 .die = some s2 ∧ s2.cache = [] :=
